@@ -45,6 +45,8 @@ label(struct func *f, struct scope *s)
 		if (!peek(TCOLON))
 			return false;
 		g = funcgoto(f, name);
+		if (g->defined)
+			error(&tok.loc, "label '%s' is already defined", name);
 		g->defined = true;
 		funclabel(f, g->label);
 		break;
